@@ -562,6 +562,33 @@ def r4_8(ctx):
             ctx.bad("R4.8", fi.module, fi.qual, what, f"store() lost: {what} - a flag change is not reported to the issuing session / the other sessions as STORE requires", fi.node.lineno)
 
 
+def r4_9(ctx):
+    """Shape of Mailbox.append(): the message gets exactly the flags the client gave (through the one flag->sequence map),
+    `unseen` exactly when \\Seen is absent, \\Recent, the internal date the client gave, and the UID looked up for the key
+    that was just added is what is returned (APPENDUID)."""
+    from .common import pm_of
+
+    p = ctx.p
+    fi = p.func("mbox.Mailbox.append")
+    ctx.analysed(fi)
+    pm = pm_of(p, fi)
+    checks = [
+        (pm.has("seqs = flags_to_seqs(flags)"), "flags mapped through flags_to_seqs", "APPEND no longer maps the client's flags through the flag<->sequence table"),
+        (pm.has("if 'Seen' not in seqs:\n    seqs.append('unseen')"), "`unseen` added exactly when \\Seen was not given", "APPEND no longer marks a message `unseen` exactly when \\Seen is absent: \\Seen and the MH unseen marker stop being complements"),
+        (pm.has("msg_key = int(self.mailbox.add(msg))"), "message added to the folder, its key kept", "the key of the appended message is not the one the folder assigned"),
+        (pm.has("self.sequences['Recent'].add(msg_key)"), "appended message is \\Recent", "an appended message is no longer \\Recent"),
+        (pm.has("for seq in seqs:\n    self.sequences[seq].add(msg_key)"), "every given flag is set on the new key", "the flags given with APPEND are not set on the new message"),
+        (pm.has("self.set_sequences_in_folder(self.sequences)"), ".mh_sequences rewritten", "APPEND no longer writes the new flags to .mh_sequences"),
+        (pm.has("if date_time:\n    mtime = date_time.timestamp()\n    await utime(mbox_msg_path(self.mailbox, msg_key), (mtime, mtime))"), "internal date = the date-time given (file mtime of the new key)", "the internal date given with APPEND is not stored on the new message"),
+        (pm.has("uid_vv, uid = self.get_uid_from_msg(msg_key)") and pm.has("return uid"), "returns the UID of the key it added", "APPEND no longer returns the UID of the message it added (APPENDUID names another message / nothing)"),
+    ]
+    for okv, okmsg, badmsg in checks:
+        if okv:
+            ctx.ok("R4.9", where(fi), okmsg)
+        else:
+            ctx.bad("R4.9", fi.module, fi.qual, okmsg, badmsg, fi.node.lineno)
+
+
 def run(ctx):
     ctx.do(r4_7)
     ctx.do(r4_6)
@@ -574,6 +601,7 @@ def run(ctx):
     ctx.do(r4_4)
     ctx.do(r4_5)
     ctx.do(r4_8)
+    ctx.do(r4_9)
     from . import c10, c16
     ctx.do(c16.r16_2)
     ctx.do(c10.r10_4_units, modules=("mbox", "client"))
